@@ -44,6 +44,12 @@ def expand(src, max_steps=200, info=None):
     if info is None:
         info = {}
     info.setdefault('shadowing', False)
+    last = [None, None]
+
+    def _parse(text):       # the same text is looked at up to three times (first scan, a round, dropping the declarations): parse it once
+        if last[0] != text:
+            last[0], last[1] = text, N.parser.parse(text, start='start')
+        return last[1]
     try:
         t0 = _parse(src)
         ms0 = _macros(t0, src)
@@ -61,58 +67,64 @@ def expand(src, max_steps=200, info=None):
                         info['shadowing'] = True
     except lark.LarkError:
         pass
-    for _ in range(max_steps):
+    steps = 0
+    while True:
+        # one round: every call that stands in the parser body now is replaced (they cannot overlap: arguments are expressions, not
+        # statements); calls inside the spliced bodies are handled by the next round. All positions refer to this round's text.
         tree = _parse(src)
         ms = _macros(tree, src)
         parser = next(tree.find_data('parser_decl'))
         plo, phi = parser.meta.start_pos, parser.meta.end_pos
-        call = None
-        for c in tree.find_data('call_stmt'):
-            if plo <= c.meta.start_pos < phi and c.children[0].value in ms:
-                if call is None or c.meta.start_pos < call.meta.start_pos:
-                    call = c
-        if call is None:
+        calls = [c for c in tree.find_data('call_stmt') if plo <= c.meta.start_pos < phi and c.children[0].value in ms]
+        if not calls:
             break
-        m = ms[call.children[0].value]
-        actual = call.children[1:]
-        if len(actual) != len(m['args']):
-            raise ExpandError('wrong number of arguments for ' + call.children[0].value)
-        texts = {}
-        for (kind, an), a in zip(m['args'], actual):
-            if isinstance(a, lark.Token):
-                texts[an] = a.value
-            else:
-                lo_, hi_ = a.meta.start_pos, a.meta.end_pos
-                # `"[" _math_expr "]"` is inlined by the grammar: the brackets belong to the argument's text
-                i, j = lo_ - 1, hi_
-                while i >= 0 and src[i] in ' \t\n':
-                    i -= 1
-                while j < len(src) and src[j] in ' \t\n':
-                    j += 1
-                if a.data not in ('regex', 'binary_regex', 'concat_expr', 'atom', 'string_const', 'string_case_const', 'binary_string_const', 'identifier_const',
-                                  'number_const', 'char_const', 'bool_const', 'end_expr') and i >= 0 and j < len(src) and src[i] == '[' and src[j] == ']':
-                    lo_, hi_ = i, j + 1
-                texts[an] = src[lo_:hi_]
-        params = {an for _, an in m['args']}
-        for (kind, an), txt in zip(m['args'], [texts[an] for _, an in m['args']]):
-            if kind in ('macro_match_expr_arg', 'macro_int_expr_arg') and params & set(re.findall(r'[A-Za-z_][A-Za-z_0-9]*', re.sub(r'"(?:[^"\\\\]|\\\\.)*"|/(?:[^/\\\\]|\\\\.)*/', '', txt))):
-                info['shadowing'] = True
-        lo, hi = m['body']
-        body = src[lo:hi]
-        toks = [t for t in _ident_tokens(m['tree'], lo, hi) if t.value in texts]
+        calls.sort(key=lambda c: c.meta.start_pos)
         in_math = set()
-        for sub in m['tree'].iter_subtrees():
+        for sub in tree.iter_subtrees():
             if sub.data == 'math_var':
                 in_math.add(id(sub.children[0]))
-        for t in sorted(toks, key=lambda t: -t.start_pos):
-            txt = texts[t.value]
-            if id(t) in in_math and txt.startswith('[') and txt.endswith(']'):
-                txt = '(' + txt[1:-1] + ')'     # inside a math expression the brackets of an expr argument become parentheses
-            body = body[:t.start_pos - lo] + txt + body[t.end_pos - lo:]
-        semi = src.index(';', call.meta.end_pos)
-        src = src[:call.meta.start_pos] + '\n' + body + '\n' + src[semi + 1:]
-    else:
-        raise ExpandError('expansion does not terminate (recursive macro?)')
+        pieces, at = [], 0
+        for call in calls:
+            steps += 1
+            if steps > max_steps:
+                raise ExpandError('expansion does not terminate (recursive macro?)')
+            assert call.meta.start_pos >= at
+            m = ms[call.children[0].value]
+            actual = call.children[1:]
+            if len(actual) != len(m['args']):
+                raise ExpandError('wrong number of arguments for ' + call.children[0].value)
+            texts = {}
+            for (kind, an), a in zip(m['args'], actual):
+                if isinstance(a, lark.Token):
+                    texts[an] = a.value
+                else:
+                    lo_, hi_ = a.meta.start_pos, a.meta.end_pos
+                    # `"[" _math_expr "]"` is inlined by the grammar: the brackets belong to the argument's text
+                    i, j = lo_ - 1, hi_
+                    while i >= 0 and src[i] in ' \t\n':
+                        i -= 1
+                    while j < len(src) and src[j] in ' \t\n':
+                        j += 1
+                    if a.data not in ('regex', 'binary_regex', 'concat_expr', 'atom', 'string_const', 'string_case_const', 'binary_string_const', 'identifier_const',
+                                      'number_const', 'char_const', 'bool_const', 'end_expr') and i >= 0 and j < len(src) and src[i] == '[' and src[j] == ']':
+                        lo_, hi_ = i, j + 1
+                    texts[an] = src[lo_:hi_]
+            params = {an for _, an in m['args']}
+            for (kind, an), txt in zip(m['args'], [texts[an] for _, an in m['args']]):
+                if kind in ('macro_match_expr_arg', 'macro_int_expr_arg') and params & set(re.findall(r'[A-Za-z_][A-Za-z_0-9]*', re.sub(r'"(?:[^"\\\\]|\\\\.)*"|/(?:[^/\\\\]|\\\\.)*/', '', txt))):
+                    info['shadowing'] = True
+            lo, hi = m['body']
+            body = src[lo:hi]
+            toks = [t for t in _ident_tokens(m['tree'], lo, hi) if t.value in texts]
+            for t in sorted(toks, key=lambda t: -t.start_pos):
+                txt = texts[t.value]
+                if id(t) in in_math and txt.startswith('[') and txt.endswith(']'):
+                    txt = '(' + txt[1:-1] + ')'     # inside a math expression the brackets of an expr argument become parentheses
+                body = body[:t.start_pos - lo] + txt + body[t.end_pos - lo:]
+            semi = src.index(';', call.meta.end_pos)
+            pieces.append(src[at:call.meta.start_pos] + '\n' + body + '\n')
+            at = semi + 1
+        src = ''.join(pieces) + src[at:]
     # drop the macro declarations
     tree = _parse(src)
     ms = _macros(tree, src)
